@@ -21,6 +21,7 @@ import (
 	ckkspoly "github.com/tuneinsight/lattigo/v6/circuits/ckks/polynomial"
 	cpoly "github.com/tuneinsight/lattigo/v6/circuits/common/polynomial"
 	"github.com/tuneinsight/lattigo/v6/core/rlwe"
+	"github.com/tuneinsight/lattigo/v6/ring"
 	"github.com/tuneinsight/lattigo/v6/schemes"
 	"github.com/tuneinsight/lattigo/v6/schemes/bgv"
 	"github.com/tuneinsight/lattigo/v6/schemes/ckks"
@@ -118,19 +119,24 @@ type c13Ctx struct {
 }
 
 func newC13Ctx(scheme string, logN int) *c13Ctx {
+	return newC13CtxLit(scheme, logN, 65537, []int{56, 46, 46, 46, 46, 46, 46}, []int{57, 57}, []int{55, 40, 40, 40, 40, 40, 40}, []int{61})
+}
+
+// newC13CtxLit: explicit plaintext modulus (bgv) and modulus chains (bgvQ/bgvP resp. ckksQ/ckksP)
+func newC13CtxLit(scheme string, logN int, t uint64, bgvQ, bgvP, ckksQ, ckksP []int) *c13Ctx {
 	x := &c13Ctx{scheme: scheme, logN: logN}
 	var kgen *rlwe.KeyGenerator
 	if scheme == "bgv" {
-		p, err := bgv.NewParametersFromLiteral(bgv.ParametersLiteral{LogN: logN, LogQ: []int{56, 46, 46, 46, 46, 46, 46}, LogP: []int{57, 57}, PlaintextModulus: 65537})
+		p, err := bgv.NewParametersFromLiteral(bgv.ParametersLiteral{LogN: logN, LogQ: bgvQ, LogP: bgvP, PlaintextModulus: t})
 		if err != nil {
 			panic(err)
 		}
-		x.bp, x.t, x.slots = p, 65537, p.MaxSlots()
+		x.bp, x.t, x.slots = p, t, p.MaxSlots()
 		x.rp = p.GetRLWEParameters()
 		x.becd = bgv.NewEncoder(p)
 		kgen = rlwe.NewKeyGenerator(p)
 	} else {
-		p, err := ckks.NewParametersFromLiteral(ckks.ParametersLiteral{LogN: logN, LogQ: []int{55, 40, 40, 40, 40, 40, 40}, LogP: []int{61}, LogDefaultScale: 40})
+		p, err := ckks.NewParametersFromLiteral(ckks.ParametersLiteral{LogN: logN, LogQ: ckksQ, LogP: ckksP, LogDefaultScale: 40})
 		if err != nil {
 			panic(err)
 		}
@@ -162,6 +168,8 @@ type c13Case struct {
 	even     bool
 	truthful bool     // the flags describe the coefficients (odd flag only: even coefficients are 0, …)
 	pre      []c13Pre // non-nil: EvaluateFromPowerBasis on a basis filled by these steps
+	ctor     int       // bgv: 1 bgvpoly.NewPolynomial[uint64] / NewPolynomialVector[uint64], 2 the same on int64 (a negative
+	// coefficient c stands for c mod t); 0: bignum.NewPolynomial on float64 coefficients (exact below 2^53 only)
 	pflags   [][2]bool // non-nil (vectors): the (IsOdd, IsEven) flags of every polynomial, each describing ITS coefficients
 }
 
@@ -216,6 +224,9 @@ func (x *c13Ctx) describe(cs *c13Case) string {
 	}
 	if cs.flagsSet {
 		fmt.Fprintf(&sb, " odd=%d even=%d", b2i(cs.odd), b2i(cs.even))
+	}
+	if cs.ctor != 0 {
+		fmt.Fprintf(&sb, " ctor=%d", cs.ctor)
 	}
 	if cs.pflags != nil {
 		parts := make([]string, len(cs.pflags))
@@ -276,13 +287,35 @@ func c13RefFloat(cheb bool, p []int64, x float64) float64 {
 	return r
 }
 
-func (x *c13Ctx) refMod(p []int64, v int64) int64 {
-	t := int64(x.t)
-	r := int64(0)
-	for i := len(p) - 1; i >= 0; i-- {
-		r = (r*v%t + (p[i]%t+t)%t) % t
-	}
+// c13MulMod: a*b mod t without overflow (t up to 2^63)
+func c13MulMod(a, b, t uint64) uint64 {
+	hi, lo := bits.Mul64(a%t, b%t)
+	_, r := bits.Div64(hi, lo, t)
 	return r
+}
+
+// refMod: Horner modulo t; a negative coefficient c stands for c mod t
+func (x *c13Ctx) refMod(p []int64, v int64) int64 {
+	t := x.t
+	r := uint64(0)
+	for i := len(p) - 1; i >= 0; i-- {
+		ci := uint64(0)
+		if p[i] >= 0 {
+			ci = uint64(p[i]) % t
+		} else if m := uint64(-p[i]) % t; m != 0 {
+			ci = t - m
+		}
+		r = (c13MulMod(r, uint64(v), t) + ci) % t
+	}
+	return int64(r)
+}
+
+func c13U64(p []int64) []uint64 {
+	u := make([]uint64, len(p))
+	for i := range p {
+		u[i] = uint64(p[i])
+	}
+	return u
 }
 
 func (x *c13Ctx) polyOfSlot(cs *c13Case, j int) []int64 {
@@ -326,6 +359,40 @@ func (x *c13Ctx) runCase(c *Ctx, cs *c13Case) {
 	}
 	// the polynomial argument of Evaluate
 	mkPol := func() (interface{}, bool) {
+		if cs.ctor != 0 {
+			if cs.mapping == nil {
+				var p bgvpoly.Polynomial
+				if cs.ctor == 1 {
+					p = bgvpoly.NewPolynomial(c13U64(cs.polys[0]))
+				} else {
+					p = bgvpoly.NewPolynomial(cs.polys[0])
+				}
+				p.Lazy = cs.lazy
+				return p, true
+			}
+			m := map[int][]int{}
+			for i := range cs.mapping {
+				m[i] = cs.mapping[i]
+			}
+			var pv bgvpoly.PolynomialVector
+			var e error
+			if cs.ctor == 1 {
+				us := make([][]uint64, len(cs.polys))
+				for i := range us {
+					us[i] = c13U64(cs.polys[i])
+				}
+				pv, e = bgvpoly.NewPolynomialVector(us, m)
+			} else {
+				pv, e = bgvpoly.NewPolynomialVector(cs.polys, m)
+			}
+			if e != nil {
+				return nil, false
+			}
+			for i := range pv.Value {
+				pv.Value[i].Lazy = cs.lazy
+			}
+			return pv, true
+		}
 		if cs.mapping == nil {
 			p := cpoly.NewPolynomial(mk(cs.polys[0]))
 			p.Lazy = cs.lazy
@@ -368,7 +435,7 @@ func (x *c13Ctx) runCase(c *Ctx, cs *c13Case) {
 				for i := range v {
 					r := int64(1)
 					for k := 0; k < p.n; k++ {
-						r = r * cs.x[i] % int64(x.t)
+						r = int64(c13MulMod(uint64(r), uint64(cs.x[i]), x.t))
 					}
 					v[i] = r
 				}
@@ -528,6 +595,9 @@ func (x *c13Ctx) runCase(c *Ctx, cs *c13Case) {
 	if cs.pflags != nil {
 		valueKey, okKey = "C13/vector-mixed-parity", "C13/vector-mixed-parity"
 	}
+	if cs.ctor != 0 {
+		valueKey, okKey = "C13/bgv-polynomial-constructors", "C13/bgv-polynomial-constructors"
+	}
 	if cs.inv && deg >= 1 && cs.level < int(math.Ceil(math.Log2(float64(deg)))) {
 		okKey = "C13/bfv-refuses-below-depth"
 	}
@@ -657,7 +727,11 @@ func (x *c13Ctx) runCase(c *Ctx, cs *c13Case) {
 		if status == "panic" {
 			d = "Evaluate panics on a constant polynomial: " + desc
 		}
-		c.Probe("degree0_no_panic", tag, "C13-degree0-panic", d)
+		k0 := "C13-degree0-panic"
+		if cs.ctor != 0 {
+			k0 = "C13/bgv-polynomial-constructors"
+		}
+		c.Probe("degree0_no_panic", tag, k0, d)
 	}
 	if cs.level < consumed {
 		// an input with too few levels must be refused with an error
@@ -728,6 +802,8 @@ func (x *c13Ctx) sc(c *Ctx) uint64 {
 
 func genC13(c *Ctx) {
 	c13Pure(c)
+	c13BigT(c)
+	c13LazyHighDegrees(c)
 	c13Mod1(c)
 	c13Mod1Sweep(c)
 	c13Composite(c)
@@ -794,6 +870,7 @@ func genC13(c *Ctx) {
 			}
 			c13Sequences(c, x)
 			c13MixedParity(c, x)
+			c13GenPower(c, x)
 			c13Extensions(c, x)
 			if scheme == "ckks" {
 				c13SparseChebyshev(c, x)
@@ -923,6 +1000,276 @@ func c13Extensions(c *Ctx, x *c13Ctx) {
 						}
 						x.runCase(c, cs)
 					}
+				}
+			}
+		}
+	}
+}
+
+// c13BigT: bgv with a 55..60-bit plaintext modulus, polynomials built by the bgv wrappers NewPolynomial /
+// NewPolynomialVector on BOTH bgv.Integer instantiations (uint64, int64), coefficients that float64 cannot represent:
+// 2^53+1, 2^53-1, odd numbers in (2^53, t), t-1, t-2; for int64 also negative ones (-1, -(2^53+1), -(t-1)).
+// Every slot is compared with the polynomial evaluated modulo t (exactly); trace, level and scale are tied.
+func c13BigT(c *Ctx) {
+	logN := 5
+	bitsT := []int{58}
+	if c.Thorough() {
+		bitsT = []int{55, 57, 58, 59} // (the chain has the 60-bit primes)
+	}
+	for _, bt := range bitsT {
+		g := ring.NewNTTFriendlyPrimesGenerator(uint64(bt), uint64(2<<logN))
+		t, err := g.NextDownstreamPrime()
+		if err != nil {
+			panic(err)
+		}
+		// t is close to the primes of the chain: the result must stay two levels above the bottom to be decryptable
+		x := newC13CtxLit("bgv", logN, t, []int{60, 60, 60, 60, 60, 60, 60}, []int{61}, nil, nil)
+		L := x.rp.MaxLevel()
+		special := func(k int, signed bool) int64 {
+			vals := []int64{1<<53 + 1, 1<<53 - 1, int64(t) - 1, int64(t) - 2, 1<<53 + 1 + 2*int64(c.rng.Below((t-1<<53)/2-1)), 1<<54 + 3}
+			if signed {
+				vals = append(vals, -1, -(1<<53 + 1), -(int64(t) - 1), -int64(c.rng.Below(t)))
+			}
+			return vals[k%len(vals)]
+		}
+		for _, ctor := range []int{1, 2} {
+			for _, deg := range []int{0, 1, 2, 3, 5, 7, 8, 12} {
+				need := 0
+				if deg >= 1 {
+					need = int(math.Ceil(math.Log2(float64(deg + 1))))
+				}
+				if need+2 > L {
+					continue
+				}
+				for rep := 0; rep < c.Scale(1, 3); rep++ {
+					cs := &c13Case{lazy: c.rng.Intn(2) == 0, level: need + 2 + c.rng.Intn(L-need-1), scale: x.sc(c), tscale: x.sc(c), x: x.randX(c), ctor: ctor}
+					np := 1
+					if (deg+rep)%3 == 1 {
+						np = 2
+						cs.mapping = make([][]int, np)
+						for j := 0; j < x.slots; j++ {
+							if k := c.rng.Intn(np + 1); k < np {
+								cs.mapping[k] = append(cs.mapping[k], j)
+							}
+						}
+					}
+					for i := 0; i < np; i++ {
+						p := x.randPoly(c, deg, 0)
+						off := c.rng.Intn(8)
+						for k := range p {
+							if (k+rep)%2 == 0 || k == deg {
+								p[k] = special(k+off+i, ctor == 2)
+							}
+						}
+						cs.polys = append(cs.polys, p)
+					}
+					c.Count(fmt.Sprintf("bigt:ctor%d", ctor))
+					x.runCase(c, cs)
+				}
+			}
+		}
+	}
+}
+
+// c13GenPower: PowerBasis.GenPower(n, lazy, eval) called DIRECTLY on a fresh basis, every n <= 64, lazy and not,
+// both bases (ckks).  Tie `genpower`: ordered trace, status, (level, ciphertext degree) of every stored power, the
+// decrypted slot values of X^n (bgv).  Probes: genpower_ok (enough levels: no error), genpower_degree (every stored
+// power has degree <= 2), genpower_value (X^n decrypts to x^n resp. T_n(x): bgv exactly, ckks 2^-10).
+func c13GenPower(c *Ctx, x *c13Ctx) {
+	L := x.rp.MaxLevel()
+	bases := []bool{false}
+	if x.scheme == "ckks" {
+		bases = []bool{false, true}
+	}
+	for n := 1; n <= 64; n++ {
+		need := int(math.Ceil(math.Log2(float64(n))))
+		for _, cheb := range bases {
+			for _, lazy := range []bool{true, false} {
+				if !lazy && !c.Thorough() && n%4 != 1 {
+					continue
+				}
+				lvls := []int{L}
+				if need <= L && need < L && (c.Thorough() || n%3 == 0) {
+					lvls = append(lvls, need)
+				}
+				if need >= 1 && (c.Thorough() || n%5 == 0) {
+					lvls = append(lvls, need-1) // one level short: an error, not a panic
+				}
+				for _, lvl := range lvls {
+					x.runGenPower(c, n, lazy, cheb, lvl, need)
+				}
+			}
+		}
+	}
+}
+
+func (x *c13Ctx) runGenPower(c *Ctx, n int, lazy, cheb bool, lvl, need int) {
+	xs := x.randX(c)
+	scale := x.sc(c)
+	qs := make([]uint64, 0)
+	for _, q := range x.rp.Q() {
+		if x.t != 0 {
+			qs = append(qs, q%x.t)
+		} else {
+			qs = append(qs, 0)
+		}
+	}
+	xstr := "-"
+	if x.scheme == "bgv" {
+		xstr = c12I64(xs)
+	}
+	desc := fmt.Sprintf("genpower t=%d q=%s slots=%d cheb=%d lvl=%d scale=%d x=%s n=%d lazy=%d", x.t, Vec(qs), x.slots, b2i(cheb), lvl, scale, xstr, n, b2i(lazy))
+	tag := fmt.Sprintf("%s logN=%d n=%d lazy=%d cheb=%d lvl=%d", x.scheme, x.logN, n, b2i(lazy), b2i(cheb), lvl)
+	basis := bignum.Monomial
+	if cheb {
+		basis = bignum.Chebyshev
+	}
+	var tr []string
+	var ct *rlwe.Ciphertext
+	var ev schemes.Evaluator
+	if x.scheme == "bgv" {
+		pt := bgv.NewPlaintext(x.bp, lvl)
+		pt.Scale = x.bp.NewScale(scale)
+		if err := x.becd.Encode(xs, pt); err != nil {
+			panic(err)
+		}
+		ct, _ = x.enc.EncryptNew(pt)
+		ev = &c13LogEval{Evaluator: bgv.NewEvaluator(x.bp, x.evk), tr: &tr, bgv: true}
+	} else {
+		pt := ckks.NewPlaintext(x.cp, lvl)
+		z := make([]float64, x.slots)
+		for i := range z {
+			z[i] = float64(xs[i]) / 4
+		}
+		if err := x.cecd.Encode(z, pt); err != nil {
+			panic(err)
+		}
+		ct, _ = x.enc.EncryptNew(pt)
+		ev = &c13LogEval{Evaluator: ckks.NewEvaluator(x.cp, x.evk), tr: &tr, bgv: false}
+	}
+	pb := cpoly.NewPowerBasis(ct, basis)
+	errText := ""
+	status := Try(func() string {
+		if err := pb.GenPower(n, lazy, ev); err != nil {
+			errText = err.Error()
+			return "err"
+		}
+		return "ok"
+	})
+	trs := "-"
+	if len(tr) > 0 {
+		trs = strings.Join(tr, ";")
+	}
+	var parts []string
+	maxDeg := 0
+	for k := 0; k <= n; k++ {
+		if p, ok := pb.Value[k]; ok && p != nil {
+			parts = append(parts, fmt.Sprintf("%d:%d:%d", k, p.Level(), p.Degree()))
+			if p.Degree() > maxDeg {
+				maxDeg = p.Degree()
+			}
+		}
+	}
+	line := fmt.Sprintf("tr=%s st=%s pb=%s", trs, status, strings.Join(parts, ","))
+	c.Count(fmt.Sprintf("genpower:%s:lazy%d:%s", x.scheme, b2i(lazy), status))
+	if lvl >= need {
+		d := ""
+		if status != "ok" {
+			d = fmt.Sprintf("status=%s (%s) with %d levels, %d needed: %s", status, errText, lvl, need, desc)
+		}
+		c.Probe("genpower_ok", tag, "C13/lazy-genpower", d)
+	} else {
+		d := ""
+		if status == "panic" {
+			d = "GenPower panics with too few levels: " + desc
+		}
+		c.Probe("genpower_too_few_levels_no_panic", tag, "C13/lazy-genpower", d)
+	}
+	d := ""
+	if maxDeg > 2 {
+		d = fmt.Sprintf("a stored power has degree %d: %s", maxDeg, desc)
+	}
+	c.Probe("genpower_degree", tag, "C13/lazy-genpower", d)
+	if status == "ok" {
+		out := pb.Value[n]
+		bad := ""
+		if x.scheme == "bgv" {
+			u := make([]uint64, x.slots)
+			if err := x.becd.Decode(x.dec.DecryptNew(out), u); err != nil {
+				panic(err)
+			}
+			got := make([]int64, len(u))
+			for j := range u {
+				got[j] = int64(u[j])
+				w := uint64(1)
+				for k := 0; k < n; k++ {
+					w = c13MulMod(w, uint64(xs[j]), x.t)
+				}
+				if int64(w) != got[j] && bad == "" {
+					bad = fmt.Sprintf("slot %d got %d want %d: %s", j, got[j], w, desc)
+				}
+			}
+			line += " val=" + c12I64(got)
+		} else {
+			z := make([]float64, x.slots)
+			if err := x.cecd.Decode(x.dec.DecryptNew(out), z); err != nil {
+				panic(err)
+			}
+			for j := range z {
+				v := float64(xs[j]) / 4
+				w := math.Pow(v, float64(n))
+				if cheb {
+					w = math.Cos(float64(n) * math.Acos(v))
+				}
+				if !(math.Abs(z[j]-w) < 1.0/1024) && bad == "" {
+					bad = fmt.Sprintf("slot %d got %g want %g: %s", j, z[j], w, desc)
+				}
+			}
+		}
+		c.Probe("genpower_value", tag, "C13/lazy-genpower", bad)
+	}
+	c.Emit(desc, line)
+}
+
+// c13LazyHighDegrees: Lazy = true polynomials of degrees 64 ... 255 (both bases for ckks) on a chain of ten primes:
+// the baby steps there are the first ones whose lazy generation multiplies a factor b = n+1-2^k that is itself a lazily
+// generated (degree-2) power.  Trace, levels, scale and values tied; value and enough_levels_ok probes as everywhere.
+func c13LazyHighDegrees(c *Ctx) {
+	degs := []int{64, 65, 96, 100, 127, 128, 129, 192, 255}
+	if c.Thorough() {
+		degs = nil
+		for d := 64; d <= 255; d += 1 + (d % 3) {
+			degs = append(degs, d)
+		}
+		degs = append(degs, 255)
+	}
+	for _, scheme := range []string{"bgv", "ckks"} {
+		x := newC13CtxLit(scheme, 5, 65537, []int{56, 46, 46, 46, 46, 46, 46, 46, 46, 46}, []int{57, 57},
+			[]int{55, 40, 40, 40, 40, 40, 40, 40, 40, 40}, []int{61})
+		L := x.rp.MaxLevel()
+		bases := []bool{false}
+		if scheme == "ckks" {
+			bases = []bool{false, true}
+		}
+		for _, deg := range degs {
+			need := int(math.Ceil(math.Log2(float64(deg + 1))))
+			for _, cheb := range bases {
+				for _, lazy := range []bool{true, false} {
+					if !lazy && !c.Thorough() && deg%32 != 0 {
+						continue
+					}
+					lvl := L
+					if c.rng.Intn(2) == 0 {
+						lvl = need + c.rng.Intn(L-need+1)
+					}
+					cs := &c13Case{cheb: cheb, lazy: lazy, level: lvl, scale: x.sc(c), tscale: x.sc(c), x: x.randX(c)}
+					shape := 0
+					if deg%2 == 1 && c.rng.Intn(3) == 0 {
+						shape = 1
+					}
+					cs.polys = [][]int64{x.randPoly(c, deg, shape)}
+					c.Count(fmt.Sprintf("lazy-high-degree:%s:lazy%d", scheme, b2i(lazy)))
+					x.runCase(c, cs)
 				}
 			}
 		}
